@@ -315,6 +315,12 @@ func (p *c9prog) step(c *fw.Ctx) {
 			p.updated++
 		})
 	}
+	add("arguments-around-a-conversion", func() {
+		// arguments are values: err / errmsg (and the aliases made so far) passed before a conversion in the same call keep what they held
+		args := []pt.Expr{pt.S("args"), pt.V("err"), pt.V("errmsg"), src, pt.C("str2num", pt.S("x")), pt.V("err"), pt.V("errmsg"), src, pt.C("str2bool", pt.S("true")), pt.V("err"), pt.V("errmsg")}
+		p.stmts = append(p.stmts, pt.CallStmt{C: pt.Call{Name: "print", Args: args}})
+		p.updated++
+	})
 	add("conversion-fails", func() {
 		n := p.fresh("c")
 		p.stmts = append(p.stmts, pt.InferDecl{Name: n, X: pt.C("str2num", pt.S("x"))})
